@@ -150,3 +150,112 @@ func opHist(a []string) string {
 }
 
 func init() { extraOps["hist"] = opHist }
+
+// tree <d> <p> ; i <key list> <tag> ; g <key list> ; …  : the inversion tree alone, values are 1x1 matrices [[tag]]
+func opTree(a []string) string {
+	line := strings.Join(a, " ")
+	parts := strings.Split(line, ";")
+	h := strings.Fields(parts[0])
+	d, p := atoi(h[0]), atoi(h[1])
+	t := rs.VerifNewTree(d, p)
+	var out []string
+	for _, sub := range parts[1:] {
+		f := strings.Fields(sub)
+		if len(f) == 0 {
+			continue
+		}
+		key := parseList(f[1])
+		switch f[0] {
+		case "i":
+			err := t.Insert(key, [][]byte{{byte(atoi(f[2]))}}, d+p)
+			if err != nil {
+				out = append(out, "err")
+			} else {
+				out = append(out, "ok")
+			}
+		case "g":
+			m := t.Get(key)
+			if m == nil {
+				out = append(out, "nil")
+			} else if len(key) == 0 {
+				out = append(out, "root")
+			} else {
+				out = append(out, fmt.Sprint(m[0][0]))
+			}
+		}
+	}
+	return strings.Join(out, " ")
+}
+
+func init() { extraOps["tree"] = opTree }
+
+// bfneed <8|16> <positions> <mips comma list> : after set+prepare, for every listed mip level the answer of
+// isNeeded(mip, bit) for every block-aligned bit (one per block of 2^mip), as a hash plus the count of true
+// bfkey <positions> : the GF8 cache key (32 bytes hex) of the un-prepared bit field
+func opBfNeed(a []string) string {
+	gf, pos, mips := a[0], parseList(a[1]), parseList(a[2])
+	var sb strings.Builder
+	if gf == "8" {
+		var e rs.VerifErrorBitfield8
+		for _, i := range pos {
+			e.Set(i)
+		}
+		e.Prepare()
+		for _, m := range mips {
+			cnt := 0
+			h := fnvInit
+			for bit := 0; bit < 256; bit += 1 << uint(min(m, 8)) {
+				v := e.IsNeeded(m, bit)
+				if v {
+					cnt++
+					h = fnv(h, []byte{1})
+				} else {
+					h = fnv(h, []byte{0})
+				}
+			}
+			fmt.Fprintf(&sb, "%d:%d:%s ", m, cnt, hex64(h))
+		}
+		return strings.TrimSpace(sb.String())
+	}
+	var e rs.VerifErrorBitfield
+	for _, i := range pos {
+		e.Set(i)
+	}
+	e.Prepare()
+	for _, m := range mips {
+		cnt := 0
+		h := fnvInit
+		for bit := 0; bit < 65536; bit += 1 << uint(min(m, 16)) {
+			v := e.IsNeeded(m, bit)
+			if v {
+				cnt++
+				h = fnv(h, []byte{1})
+			} else {
+				h = fnv(h, []byte{0})
+			}
+		}
+		fmt.Fprintf(&sb, "%d:%d:%s ", m, cnt, hex64(h))
+	}
+	return strings.TrimSpace(sb.String())
+}
+
+func opBfKey(a []string) string {
+	var e rs.VerifErrorBitfield8
+	for _, i := range parseList(a[0]) {
+		e.Set(i)
+	}
+	k := e.CacheID()
+	return fmt.Sprintf("%x", k[:])
+}
+
+func min(a, b int) int {
+	if a < b {
+		return a
+	}
+	return b
+}
+
+func init() {
+	extraOps["bfneed"] = opBfNeed
+	extraOps["bfkey"] = opBfKey
+}
